@@ -132,7 +132,12 @@ func bfDescribe(b bfBeh) []string {
 // viaLogger=true: entries through a zap.Logger whose core writes to the BufferedWriteSyncer (C10).
 var bfWraps = []string{"the failing sink alone", "CombineWriteSyncers(failing sink, healthy sink)", "CombineWriteSyncers(healthy sink, failing sink)", "Lock(failing sink)"}
 
+var bfHangs int32 // calls that never returned so far: after a few the remaining histories are not replayed
+
 func bwsFaultReplay(b bfBeh, size int, viaLogger bool, prop string, wrap int) (finds []Finding, drift string) {
+	if atomic.LoadInt32(&bfHangs) >= 3 {
+		return nil, ""
+	}
 	add := func(key, f string, a ...interface{}) {
 		finds = append(finds, Finding{Key: prop + "/" + key, What: fmt.Sprintf(f, a...) + fmt.Sprintf("; history=%v over %s", bfDescribe(b), bfWraps[wrap])})
 	}
@@ -215,24 +220,48 @@ func bwsFaultReplay(b bfBeh, size int, viaLogger bool, prop string, wrap int) (f
 			add("loss-not-reported", "step %d: after %s accepted data is missing from the sink and no call has reported an error so far", i, o.Op)
 		}
 	}
+	// every call gets a watchdog: a call that never returns after a sink fault is a finding, not a hung check
+	guard := func(i int, what string, f func()) bool {
+		done := make(chan struct{})
+		go func() {
+			defer close(done)
+			defer func() {
+				if r := recover(); r != nil {
+					add("panic", "step %d: %s panicked: %v", i, what, r)
+				}
+			}()
+			f()
+		}()
+		select {
+		case <-done:
+			return true
+		case <-time.After(10 * time.Second):
+			atomic.AddInt32(&bfHangs, 1)
+			add("deadlock", "step %d: %s did not return within 10 s (after earlier sink faults)\n%s", i, what, zapStacks())
+			return false
+		}
+	}
 	for i, o := range b.H {
 		sink.setPlan(o.Plan)
 		_, calls0, syncs0 := sink.snap()
 		_ = calls0
 		ok := true
+		hung := false
 		switch o.Op {
 		case "W":
 			nw++
 			if viaLogger {
 				e0 := errOut.Len()
-				lg.Info(bfMsg(nw, o.N))
+				hung = !guard(i, "the logging call", func() { lg.Info(bfMsg(nw, o.N)) })
 				ok = errOut.Len() == e0
 				if ok {
 					accepted = append(accepted, []byte(`{"m":"`+bfMsg(nw, o.N)+"\"}\n"))
 				}
 			} else {
 				p := bwsPayload(1, nw, o.N)
-				n, err := bws.Write(p)
+				var n int
+				var err error
+				hung = !guard(i, "Write", func() { n, err = bws.Write(p) })
 				ok = err == nil
 				if ok && n != len(p) {
 					add("write-result", "step %d: Write(len %d) returned (%d, nil)", i, len(p), n)
@@ -250,11 +279,13 @@ func bwsFaultReplay(b bfBeh, size int, viaLogger bool, prop string, wrap int) (f
 			inited = true
 		case "Y":
 			var err error
-			if viaLogger {
-				err = lg.Sync()
-			} else {
-				err = bws.Sync()
-			}
+			hung = !guard(i, "Sync", func() {
+				if viaLogger {
+					err = lg.Sync()
+				} else {
+					err = bws.Sync()
+				}
+			})
 			ok = err == nil
 			if !ok {
 				reported = true
@@ -284,19 +315,25 @@ func bwsFaultReplay(b bfBeh, size int, viaLogger bool, prop string, wrap int) (f
 			}
 			// the loop body still holds the lock until it returns; the next operation serialises behind it
 		case "S":
-			err := bws.Stop()
+			var err error
+			hung = !guard(i, "Stop", func() { err = bws.Stop() })
 			ok = err == nil
 			if !ok {
 				reported = true
 			}
 			stopped = true
 		}
+		if hung {
+			return
+		}
 		if o.Op != "T" && ok != o.Ok && drift == "" {
 			drift = fmt.Sprintf("step %d %s: real ok=%v, model ok=%v; history=%v", i, o.Op, ok, o.Ok, bfDescribe(b))
 		}
 		if o.Op == "T" {
 			// make the flush loop's critical section finish before looking at the sink
-			bws.Write(nil)
+			if !guard(i, "a Write after the tick", func() { bws.Write(nil) }) {
+				return
+			}
 		}
 		sink.setPlan(nil)
 		check(i, o, ok)
@@ -306,10 +343,14 @@ func bwsFaultReplay(b bfBeh, size int, viaLogger bool, prop string, wrap int) (f
 	}
 	// the application's last resort: a final Sync on a healthy sink
 	var err error
-	if viaLogger {
-		err = lg.Sync()
-	} else {
-		err = bws.Sync()
+	if !guard(len(b.H), "the final Sync", func() {
+		if viaLogger {
+			err = lg.Sync()
+		} else {
+			err = bws.Sync()
+		}
+	}) {
+		return
 	}
 	if err == nil && !complete() {
 		if viaLogger && errOut.Len() == 0 && !reported {
